@@ -76,8 +76,10 @@ def jobs_c19(tier):
     return js
 
 
-def jobs_vec(tier):
+def jobs_vec(tier, program=True):
     js = levels("std", "fast") + [J("nosimd", "fast"), J("std", "checked", "host", 0.25), J("nosimd", "checked", "host", 0.5)]
+    if program:
+        js.append(J("std", "fast", "host", args={"--only": "program"}, tag="program"))
     if tier != "quick":
         js += [J("std", "dev", "host", 0.01), J("nosimd", "dev", "host", 0.02)]
     return js
@@ -151,6 +153,7 @@ PLANS = {
     },
     "C16": {
         "jobs": jobs_c16,
+        "fuzz": [{"target": "bytes_api", "runs": 1500000, "max_len": 64}],
         "rule": "APIs: apply_keystream and NewCipher::new for the 7 cipher types, update and finalize_into for 17/16 hash types, Threefish "
                 "encrypt/decrypt (3 sizes, key and block), guts ChaCha::new/refill/refill4, JH Compressor::input, read_le/read_be/"
                 "write_le/write_be of the five StoreBytes vector types on every back end. Exhaustive: every API x start alignment 0..63 "
@@ -173,15 +176,18 @@ PLANS = {
     },
     "C12": {
         "jobs": jobs_vec,
+        "fuzz": [{"target": "vec_program", "runs": 3000000, "max_len": 512}],
         "rule": "one generated operand set (four 512-bit values: uniform 60 %, zero, all-ones, single bit, complement of a single bit, "
                 "byte ramp, 0x80/0x7f bytes, one all-ones word) is run through every (vector type, operation) cell required by the Machine "
                 "trait bounds - 10 types x {xor, xor_assign, and, or, not, andnot, rotate_each_word_right 7/8/11/12/16/20/24/25 (+32 for "
                 "64/128-bit words), add, add_assign, bswap, shuffle1230/2301/3012, shuffle_lane_words*, swap1..64} = 202 cells - on each of "
-                "the back ends SSE2, SSSE3, SSE4.1, AVX, AVX2 and portable; oracle: byte-level scalar model of the named operation; "
+                "the back ends SSE2, SSSE3, SSE4.1, AVX, AVX2 and portable; plus generated straight-line programs (1..24 ops over four 512-bit "
+                "registers: arithmetic/bitwise/rotate/bswap/shuffle/swap ops on the u32x4x4, u64x2x4, u128x4 views, lane extract/insert, "
+                "to_lanes/from_lanes, transpose4) executed on every back end; oracle: byte-level scalar model of the named operation; "
                 "non-trivial = first operand not all-zero; distinct = FNV-1a of (back end, operand set)",
     },
     "C13": {
-        "jobs": jobs_vec,
+        "jobs": lambda tier: jobs_vec(tier, False),
         "rule": "one generated operand set is run through 152 data-movement cells per back end: unpack/into storage, to_lanes, from_lanes, "
                 "Machine::vec, vzip, insert/extract at every element index (words and whole lanes), transpose4, to_scalars, read_le/"
                 "read_be/write_le/write_be and their round trips, storage views (Into<[u32;N]|[u64;N]|[u128;N]>, From<[u32;4]|[u64;4]>, "
@@ -236,6 +242,7 @@ PLANS = {
     },
     "C08": {
         "jobs": jobs_c08,
+        "fuzz": [{"target": "hash_history", "runs": 400000, "max_len": 256}],
         "rule": "17 hash types (15 of the property + Skein256<33>, Skein1024<200>) x generated histories (1..20 ops) over a set of up to 6 "
                 "live instances: update/chain(piece), clone, reset, finalize_reset (Digest), finalize_fixed_reset (FixedOutput), finalize, "
                 "new; piece lengths relative to the instance's buffer fill (block-fill+-2, k*block-fill+-2, 0, 1, <700); oracle: every "
@@ -254,6 +261,7 @@ PLANS = {
     },
     "C14": {
         "jobs": jobs_c14,
+        "fuzz": [{"target": "blockfn", "runs": 3000000, "max_len": 128}],
         "rule": "generated (key, 8/12-byte nonce, 64-bit counter from a mixture with the low word within 8 of 2^32 under any high word, "
                 "k*2^32-d, 2^64-1-d, stream id, double rounds 0..=10, 1..3 repetitions); oracle: refill4 bytes == four refills from a clone, "
                 "states equal, every block == reference block(key, counter, stream id, 2*drounds), counter advanced by 1/4 with carry into "
@@ -270,6 +278,7 @@ PLANS = {
     },
     "C01": {
         "jobs": jobs_c01,
+        "fuzz": [{"target": "blockfn", "runs": 3000000, "max_len": 128}],
         "rule": "generated (variant, key, nonce, preceding partial read, byte position from a mixture of small / uniform / "
                 "boundary families around block 2^32, 2^38 and 2^64, length biased to 0,1,63..65,255..257,..., data, buffer offset); "
                 "oracle: data_out == data_in XOR reference ChaCha keystream at that position, bytes outside the slice untouched; "
@@ -277,6 +286,7 @@ PLANS = {
     },
     "C02": {
         "jobs": jobs_c02,
+        "fuzz": [{"target": "chacha_history", "runs": 3000000, "max_len": 400}],
         "rule": "generated histories (0..24 ops) over seek(7 integer types; relative / block-boundary / absolute / end-relative "
                 "targets), negative seek, apply(fixed | to-block-end+-d | to-stream-end+-d), apply-seek-back-apply, current_pos(7 types) "
                 "interpreted against an absolute-position model with the reference keystream; non-trivial = history contains a "
@@ -285,6 +295,7 @@ PLANS = {
     },
     "C11": {
         "jobs": jobs_c02,
+        "fuzz": [{"target": "chacha_history", "runs": 3000000, "max_len": 400}],
         "rule": "generated histories (0..16 ops) weighted towards the end of the keystream (2^38 bytes IETF; 2^64 and block 2^32 for "
                 "the 64-bit-counter variants): seeks within +-700 bytes of the limit and beyond it in every integer type, requests ending "
                 "exactly at / one or two bytes short of / past the limit; oracle: in-range requests succeed with reference bytes, "
